@@ -252,7 +252,9 @@ void op_sign(const Case& c, TaskCtx& t, Outcome& o) {
       size_t d = 0;
       while (d < ms.size() && d < sig.size() && ms[d] == sig[d])
         d++;
-      CHECK_FAIL(owned("C03.differs_from_specification", {"C10"}), std::string(p.name) + " " + family_tag(c) + " mlen=" + std::to_string(msg.size()) + ": len " +
+      // in a WITH_EXTRA_RANDOMNESS build signatures cannot be compared with the full build (randomised by design): there the
+      // model, fed the same random bytes, is what "behaves as the full build" means, and C17 owns the clause
+      CHECK_FAIL(G.extra_randomness ? owned("C03.differs_from_specification", {"C10", "C17"}) : owned("C03.differs_from_specification", {"C10"}), std::string(p.name) + " " + family_tag(c) + " mlen=" + std::to_string(msg.size()) + ": len " +
                                                                 std::to_string(sig.size()) + " vs model " + std::to_string(ms.size()) + ", first difference at byte " +
                                                                 std::to_string(d));
     }
@@ -615,8 +617,10 @@ void op_verify(const Case& c, TaskCtx& t, Outcome& o) {
       t.stats->hit("fault.wire_near_miss_public_key");
   } else if (!apply_wire_fault(c, p, k, msg, hi.sig, d, t, o))
     return;
-  if ((d.vparam != param || c.s("wf") == "garbagepk") && surf == 1)
+  if ((d.vparam != param || c.s("wf") == "garbagepk") && surf != 0)
     surf = 0; // misrouting / arbitrary parameter bytes are expressed through the parameter byte of the generic surface
+  if (surf == 2 && !surface_available(2, param))
+    surf = 0;
   const model::Params& vp = *model::params(d.vparam);
   // place inputs: exact-size, last byte before an unmapped page, read-only
   bool edge = c.s("place", "edge") == "edge";
@@ -642,11 +646,35 @@ void op_verify(const Case& c, TaskCtx& t, Outcome& o) {
   }
   bytes pk_before = pkst;
   t.env.perm_budget = 4 * hi.perms + 64 + 4 * (d.msg.size() / 136 + 1);
-  int rc = libcall(t, [&] {
-    if (surf == 1)
-      return param_api(d.vparam).verify(pkst.data(), mp, d.msg.size(), sp, d.sig.size());
-    return picnic_verify(pkst.data(), mp, d.msg.size(), sp, d.sig.size());
-  });
+  int rc;
+  EdgeBuf framebuf, pkbuf, mout;
+  if (surf == 2) {
+    // the NIST-style opener is a verifier too: the delivered triple framed as LE32(len) || msg || sig
+    bytes frame;
+    uint32_t L = (uint32_t)d.sig.size();
+    for (int i = 0; i < 4; i++)
+      frame.push_back((uint8_t)(L >> (8 * i)));
+    frame.insert(frame.end(), d.msg.begin(), d.msg.end());
+    frame.insert(frame.end(), d.sig.begin(), d.sig.end());
+    framebuf.alloc(frame.size(), frame.data());
+    framebuf.readonly(true);
+    pkbuf.alloc(d.pk.size(), d.pk.data());
+    pkbuf.readonly(true);
+    mout.alloc(frame.size(), nullptr, 0xC7);
+    unsigned long long mlen = 0xdeadbeefcafef00dULL;
+    rc = libcall(t, [&] { return nist_api(param).open(mout.p, &mlen, framebuf.p, frame.size(), pkbuf.p); });
+    framebuf.readonly(false);
+    pkbuf.readonly(false);
+    if (memcmp(framebuf.p, frame.data(), frame.size()) != 0 || memcmp(pkbuf.p, d.pk.data(), d.pk.size()) != 0)
+      CHECK_FAIL("C05.const_input_modified", std::string(vp.name) + ": crypto_sign_open modified its const input (" + d.fault_desc + ")");
+    if (rc == 0 && d.intact && (mlen != d.msg.size() || memcmp(mout.p, d.msg.data(), d.msg.size()) != 0))
+      CHECK_FAIL("C16.opened_message_wrong", std::string(vp.name) + ": opened message/length wrong");
+  } else
+    rc = libcall(t, [&] {
+      if (surf == 1)
+        return param_api(d.vparam).verify(pkst.data(), mp, d.msg.size(), sp, d.sig.size());
+      return picnic_verify(pkst.data(), mp, d.msg.size(), sp, d.sig.size());
+    });
   t.env.perm_budget = 0;
   if (edge) {
     sbuf.readonly(false);
@@ -671,6 +699,50 @@ void op_verify(const Case& c, TaskCtx& t, Outcome& o) {
                         std::string(p.name) + " " + family_tag(c) + " surf" + std::to_string(surf) + ": intact delivery rejected, mlen=" + std::to_string(msg.size()));
   if (!d.intact && rc == 0)
     CHECK_FAIL("C02.accepted_altered", std::string(vp.name) + " " + family_tag(c) + " surf" + std::to_string(surf) + ": accepted although " + d.fault_desc);
+}
+
+// ------------------------------------------------------------------------------------------------ the same call on two nodes (C04, C10)
+// Cheap differential at volume: one (key, message) signed on the AVX2 node and on the SSE2 node of the same build; the
+// bytes must be equal. Needs neither the model nor a verifier, so rare data-dependent slips in one family (per-signature
+// probability 1e-3..1e-2) are reached within the quick budget.
+void op_signdiff(const Case& c, TaskCtx& t, Outcome& o) {
+  int param = (int)c.i("param", 1), surf = (int)c.i("surf", 0);
+  const model::Params* pp = model::params(param);
+  if (!pp || !generic_enabled(param) || !surface_available(surf, param) || !G.cpu_seam || G.node_override == "sse2") {
+    o.skipped = true;
+    return;
+  }
+  const model::Params& p = *pp;
+  model::Key k = key_from_case(c, p);
+  bytes msg = msg_from_case(c);
+  size_t mx = picnic_signature_size(param);
+  bytes a(mx), b(mx);
+  size_t la = mx, lb = mx;
+  static const uint8_t nonnull_empty3 = 0;
+  const uint8_t* mp = msg.empty() ? &nonnull_empty3 : msg.data();
+  // both calls are part of the simulated history (yield points, step clock), each under its own capability word
+  t.env.caps_mask = caps_for_node("avx2");
+  int ra = libcall(t, [&] { return s_sign(surf, k, mp, msg.size(), a.data(), &la); });
+  t.env.caps_mask = caps_for_node("sse2");
+  int rb = libcall(t, [&] { return s_sign(surf, k, mp, msg.size(), b.data(), &lb); });
+  bool same = ra == rb && (ra != 0 || (la == lb && memcmp(a.data(), b.data(), la) == 0));
+  o.digest = digest_of(ra, ra == 0 ? la : 0, a.data(), ra == 0 ? la : 0);
+  o.summary = "rc=" + std::to_string(ra) + "/" + std::to_string(rb) + " len=" + std::to_string(la) + "/" + std::to_string(lb);
+  if (G.solo_pass)
+    return;
+  if (t.stats) {
+    t.stats->hit("op.signdiff");
+    t.stats->tuple(std::string(p.name) + "|" + G.variant + "|signdiff|surf" + std::to_string(surf) + "|" + (same ? "equal" : "DIFFER"));
+  }
+  if (!same) {
+    size_t d = 0;
+    while (d < la && d < lb && a[d] == b[d])
+      d++;
+    CHECK_FAIL(owned("C04.families_disagree_on_signature", {"C10", "C03", "C01"}), std::string(p.name) + " surf" + std::to_string(surf) + " mlen=" + std::to_string(msg.size()) + " key=" + c.s("kpat", "rand") +
+                                                                                     ": the AVX2 node and the SSE2 node of the same build sign differently (rc " + std::to_string(ra) + "/" +
+                                                                                     std::to_string(rb) + ", len " + std::to_string(la) + "/" + std::to_string(lb) + ", first difference at byte " +
+                                                                                     std::to_string(d) + ")");
+  }
 }
 
 // ------------------------------------------------------------------------------------------------ corrupted key -> sign (C12)
@@ -803,5 +875,6 @@ void register_sign_ops(std::map<std::string, OpFn>& reg) {
   reg["sign"] = op_sign;
   reg["verify"] = op_verify;
   reg["signbad"] = op_signbad;
+  reg["signdiff"] = op_signdiff;
 }
 } // namespace sim
